@@ -114,8 +114,13 @@ class FiltersSet:
 
     def check_if_arg_is_extension(self, arg: str):
         """Include extension if arg requires one."""
-        args_using_extensions = {":copy": "copy", ":create": "mailbox"}
-        if arg in args_using_extensions:
+        args_using_extensions = {
+            ":copy": "copy",
+            ":create": "mailbox",
+            ":flags": "imap4flags",
+            ":seconds": "vacation-seconds",
+        }
+        if isinstance(arg, str) and arg in args_using_extensions:
             self.require(args_using_extensions[arg])
 
     def __gen_require_command(self) -> Union[commands.Command, None]:
@@ -315,6 +320,7 @@ class FiltersSet:
                     atype = "number"
                 elif isinstance(arg, list):
                     atype = "stringlist"
+                    arg = [self.__quote_if_necessary(item) for item in arg]
                 elif arg.startswith(":"):
                     atype = "tag"
                 else:
